@@ -8,7 +8,9 @@
 //!   rrtk-sim traces --prop P --tier T --seed S --runs N     (C19 / determinism)
 
 mod approx;
+mod comb;
 mod core;
+mod datumop;
 mod dev_arena;
 mod dev_gen;
 mod dev_oracles;
